@@ -29,8 +29,8 @@ for k, n in enumerate(kn):
                   tiers=(["quick", "thorough"] if n in ("feMul", "feCMove", "feToBytes", "scAdd", "feFromBytes") else ["thorough"])))
 BP = "go.dedis.ch/kyber/v4/pairing/bn256."
 bn_contracts = {BP + k: dict(writes=[0], havoc=True) for k in ["gfpMul", "gfpAdd", "gfpSub", "gfpNeg"]}
-for k, mn in enumerate(["MarshalBinary", "Data", "Equal", "Clone", "String", "operand-of-Add-Neg-Set-Sub", "MarshalSize-EmbedLen"]):
-    H.append(dict(name="bn256.G1.%s" % mn, pkg="./pairing/bn256", files=["harness/C04/bn.go"], entry="HarnessBNReadOnlyG1", mode="int", params={"p0": k}, contracts=bn_contracts, approx_bitops=True, unwind=2000,
+for k, mn in enumerate(["MarshalBinary", "Data", "Equal", "Clone", "String", "operand-of-Add-Neg-Set-Sub", "MarshalSize-EmbedLen", "operands-of-Pair", "G2-MarshalBinary-Equal-Clone-Add-Neg"]):
+    H.append(dict(name="bn256.G1.%s" % mn, pkg="./pairing/bn256", files=["harness/C04/bn.go"], entry="HarnessBNReadOnlyG1", mode="int", params={"p0": k}, contracts=bn_contracts, approx_bitops=True, unwind=20000, exec_timeout_s=1200,
                   race_entry="RaceBNReadOnlyG1", stubs=["gfpMul/gfpAdd/gfpSub/gfpNeg (assembly) -> writes only its output parameter, arbitrary value", "fmt formatting = empty bodies"],
                   functions=["bn256.(*pointG1).%s" % mn], bound="arbitrary Jacobian coordinates; one call",
                   mutants=[dict(id="C20a", file="pairing/bn256/point.go", old="\tpgtemp := *p.g\n\tpgtemp.MakeAffine()", new="\tpgtemp := p.g\n\tpgtemp.MakeAffine()")] if mn == "Data" else []))
